@@ -101,6 +101,15 @@ class LUDomain(opsdom.OpsDomain):
         if isinstance(a, MapIter) and isinstance(b, MapIter):
             same = a.m is b.m and a.key == b.key
             return same if op == "==" else not same
+        if op in ("==", "!=") and (symdom.is_sym(a) or symdom.is_sym(b)) and not isinstance(a, symdom.Lin) and not isinstance(b, symdom.Lin):
+            # exact comparison with a constant: an independent symbol differs from any constant; two constants compare as numbers.
+            # (Skipping entries that are EXACTLY zero is lossless, so this test is not forked.)
+            A, B = dag.lift(a), dag.lift(b)
+            if A.op == "c" and B.op == "c":
+                return (A.a == B.a) if op == "==" else (A.a != B.a)
+            if (A.op == "c") != (B.op == "c"):
+                same = dag.equal(A, B)
+                return same if op == "==" else not same
         if op in ("<", ">", "<=", ">=") and (symdom.is_sym(a) or symdom.is_sym(b)):
             # `std::abs(diag) < 1e-12`: pivots are assumed non-vanishing (hypothesis of the property)
             A, B = dag.lift(a), dag.lift(b)
